@@ -5,6 +5,12 @@ import glob, json, os, re
 ROOT = os.path.dirname(os.path.dirname(os.path.abspath(__file__)))
 # seeds whose first run was missed by the property's check, and what was added (a stream / oracle, never a fingerprint)
 STRENGTHENED = {
+    "XQ_2": "a select item aliased like a base column that another item reads, and clause references to that other item (one-step resolution)",
+    "XQ_6": "a derived table whose alias is also the name of a WITH table of the statement",
+    "XS_5": "option-shaped strays (NAME = VALUE, NAME VALUE) behind the column list and at the end of DDL statements",
+    "XS_6": "27 keyword-rich statements (every keyword of the grammar) in lower, upper and mixed case, identifiers and data words untouched",
+    "XT_4": "a derived table that reads a WITH table of the enclosing statement",
+    "XS_3": "(patch re-based on f4445dc, which repaired the same function)",
     "XM_1": "cursor histories that place every multi-token search / match exactly at the end of the list (and one token short of it)",
     "XN_1": "quote characters as comment payloads, comment templates followed by the dialect's own spellings (==, CURRENT DATE)",
     "XN_3": "statements with LIMIT + offset (and every other clause kind) in the cross-dialect print base; all 7 dialects in C01's quick tier",
